@@ -569,8 +569,10 @@ def sc_fuse(rng, opts):
     mode = opts.get('mode') or mode_r
     depth2 = rng.random() < 0.4 and len(groups) >= 2
     mode2 = rng.choice(['hard', 'meta'])
-    op = rng.choice(['roundtrip', 'norm', 'dense', 'dot', 'add', 'vdot'])
+    op = rng.choice(['roundtrip', 'norm', 'dense', 'dot', 'add', 'vdot', 'roundtrip_transposed', 'roundtrip_transposed'])
     flat = [x for g in groups for x in (g if isinstance(g, tuple) else (g,))]
+    qperm = list(range(len(groups))); rng.shuffle(qperm)
+    consume_first = rng.random() < 0.3
 
     def fuse(x):
         y = x.fuse_legs(axes=tuple(groups), mode=mode)
@@ -592,6 +594,14 @@ def sc_fuse(rng, opts):
         fa = fuse(a)
         if op == 'roundtrip':
             return unfuse(fa)
+        if op == 'roundtrip_transposed':
+            # fuse (one level), transpose the fused tensor lazily, then unfuse all fused legs at once
+            f1 = a.fuse_legs(axes=tuple(groups), mode=mode)
+            t1 = f1.transpose(tuple(qperm))
+            if consume_first:
+                t1 = t1.consume_transpose()
+            ax = tuple(k for k, gi in enumerate(qperm) if isinstance(groups[gi], tuple))
+            return t1.unfuse_legs(axes=ax) if ax else t1
         if op == 'norm':
             return fa.norm() ** 2
         if op == 'dense':
@@ -608,6 +618,9 @@ def sc_fuse(rng, opts):
         lg = list(a.get_legs())
         if op == 'roundtrip':
             return dict(dense=dense(a).transpose(flat), legs={k: lg[i] for k, i in enumerate(flat)}, n=a.n)
+        if op == 'roundtrip_transposed':
+            fl2 = [x for gi in qperm for x in (groups[gi] if isinstance(groups[gi], tuple) else (groups[gi],))]
+            return dict(dense=dense(a).transpose(fl2), legs={k: lg[i] for k, i in enumerate(fl2)}, n=a.n)
         if op == 'norm':
             return dict(number=np.sum(np.abs(dense(a)) ** 2))
         if op == 'dense':
